@@ -257,7 +257,8 @@ class Lifecycle(core.Scenario):
         kinds = [e[0] for e in ev]
         for what, step, state in w.effect_log:
             if what == 'disconnect' and state == 'connected':
-                self.causes.append(('client', step))
+                # logged inside a step (an index, not a completed-step count): it precedes whatever fires later in that step
+                self.causes.append(('client', step - 0.5))
         if not self.conn.done:
             site = w.blocked_site(self.conn) if hasattr(w, 'blocked_site') else []
             self.flag('connect_never_returned', 'connect() still running at the horizon %s' % site, trigger=trig)
@@ -290,14 +291,14 @@ class Lifecycle(core.Scenario):
                 reason = ev[i][1]
                 dstep = ev[i][3]
                 allowed = {{'client': 'client disconnect', 'server': 'server disconnect', 'transport': 'transport error'}[pty]
-                           for pty, st in self.causes if st <= dstep}
+                           for pty, st in self.causes if st < dstep}
                 if not allowed:
                     allowed = {'transport error'}     # ended by silence / timeouts alone
                 if reason not in allowed:
-                    self.flag('wrong_reason', 'reason %r, causes before the event %r' % (reason, [q for q in self.causes if q[1] <= dstep]), trigger=trig)
+                    self.flag('wrong_reason', 'reason %r, causes before the event %r' % (reason, [q for q in self.causes if q[1] < dstep]), trigger=trig)
                 # message handlers run in the background: one whose packet reached the client before the
                 # disconnect event fired may still run after it (DESIGN S4); anything else may not
-                late = [e for e in ev[i + 1:] if not (e[0] == 'message' and self.msg_step.get(e[1], 10 ** 9) <= dstep)]
+                late = [e for e in ev[i + 1:] if not (e[0] == 'message' and self.msg_step.get(e[1], 10 ** 9) < dstep)]
                 if late:
                     self.flag('event_after_disconnect', 'events after disconnect: %r' % [e[:2] for e in late], trigger=trig)
         # clean state
